@@ -1,7 +1,7 @@
 (* Extraction of the executable models of group `slot` (C09: Model/Slot.v, C14: Model/Topo.v).
    ExtrOcamlBasic only; N, Z, positive, nat stay the extracted inductive types. No Extract Constant. *)
 From Coq Require Import ExtrOcamlBasic.
-From UM Require Import Base.BytesDef Base.Dec Base.RespT Model.Slot.
+From UM Require Import Base.BytesDef Base.Dec Base.RespT Model.Slot Model.Topo.
 Set Extraction Optimize.
 (* Coq's List module would be extracted as List.ml and shadow OCaml's List in the driver: inline what the model uses *)
 Extraction Inline List.map List.fold_left List.nth_error List.skipn List.firstn List.existsb List.forallb
@@ -10,4 +10,5 @@ Separate Extraction
   Dec.to_dec Dec.Z_to_dec RespT.resp
   Slot.crc16 Slot.get_hash_tag Slot.hash_tag Slot.slot Slot.same_slot
   Slot.slot_map_new Slot.slot_map_get Slot.slot_map_dump Slot.last_owner Slot.owners
-  Slot.install Slot.route Slot.cmd_slot Slot.handle_cmd Slot.std_backend.
+  Slot.install Slot.route Slot.cmd_slot Slot.handle_cmd Slot.std_backend
+  Topo.gen_cluster_nodes Topo.gen_cluster_slots Topo.get_states Topo.lookup Topo.routing_meta Topo.should_ignore.
